@@ -169,6 +169,14 @@ class SymInterp1d:
         out = [self._one(q) for q in qs]
         sym = self.symbolic_data or _any_symbolic(qs) or _any_symbolic(out)
         dt = object if sym else float
+        res = self._pack(scalar, out, dt)
+        if sym:
+            from .symnp import SymArray
+
+            res = res.view(SymArray)  # keeps .astype(int) symbolic
+        return res
+
+    def _pack(self, scalar, out, dt):
         if scalar:
             res = _np.empty((), dtype=dt) if self.y_ndim == 1 else None
             if self.y_ndim == 1:
